@@ -154,6 +154,49 @@ def scenario(rng, drv, k, tier):
             "keep_reports": 1, "subinfo": subinfo, "outcomes": [rng.choice([["val", 9], ["none", 0], ["err", 0]])], "tag": "%s:%d" % (drv, k)}
 
 
+def query_sweep(tier, seed):
+    """every query class of the library, seen on the bus and answered with values from all over the byte range (and a
+    framing error), a few queries per history, closed by an ordinary frame: every one is reported, whatever its answer"""
+    from dali.command import Command
+    from dali import address
+    core.import_all_commands()
+    rng = random.Random(seed * 13 + 1)
+    qs = []
+    for c in sorted(Command._commands, key=lambda c_: (c_.__module__, c_.__name__)):
+        if getattr(c, "response", None) is None:
+            continue
+        for args in ((address.GearShort(7),), (address.DeviceShort(7),), (address.DeviceShort(7), address.InstanceNumber(2)),
+                     (), (9,), (address.GearShort(7), 3), (address.DeviceShort(7), 3)):
+            try:
+                o = c(*args)
+            except Exception:
+                continue
+            dt = o.devicetype if isinstance(o.devicetype, int) else 0
+            if len(o.frame) in (16, 24):
+                qs.append((len(o.frame), o.frame.as_integer, dt))
+            break
+    vals = [0, 1, 4, 5, 6, 0x7F, 0x80, 0xFE, 0xFF, "err"]
+    scs = []
+    F = frames()
+    for rep in range(3 if tier == "quick" else len(vals)):
+        for k0 in range(0, len(qs), 5):
+            t, obs = 0.05, []
+            for j, (bits, f, dt) in enumerate(qs[k0:k0 + 5]):
+                if dt:
+                    obs.append([t, "fwd", 0xC100 | dt, 16]); t = round(t + 0.05, 6)
+                obs.append([t, "fwd", f, bits]); t = round(t + 0.02, 6)
+                v = vals[(k0 + j + 3 * rep + rng.randrange(2)) % len(vals)]
+                obs.append([t, "err", 0, 8] if v == "err" else [t, "back", v, 8]); t = round(t + 0.31, 6)
+            obs.append([t, "fwd", F["plain"][0], 16]); t = round(t + 0.31, 6)
+            drv = "tridonic" if (k0 // 5 + rep) % 4 else ("luba" if k0 % 2 else "sci")
+            if drv != "tridonic":
+                obs = [o for o in obs if o[1] in ("fwd", "back")]
+            scs.append({"driver": drv, "observe": obs, "subscribers": [[0.0, "join", "S0"]], "callers": [], "post_idle": round(t + 1.0, 6),
+                        "idle": round(t + 1.0, 6), "keep_reports": 1, "subinfo": [["S0", 0.0, 1e6]], "outcomes": [["none", 0]],
+                        "tag": "qsweep"})
+    return scs
+
+
 def systematic(tier):
     """every history of up to L reports over an alphabet of report kinds x {short gap, long gap}: small-scope exhaustive
     for the Tridonic watcher (L = 3 quick: 9 k histories, L = 4 thorough: 190 k) and, forward frames only, for SCI / LUBA"""
@@ -239,6 +282,7 @@ def run(tier, seed, replay=None):
             for k in range(n):
                 scs.append(scenario(rng, "tridonic" if k % 3 != 2 else rng.choice(["luba", "sci"]), k, tier))
             scs += systematic(tier)
+            scs += query_sweep(tier, seed)
             out.extra["systematic_histories"] = sum(1 for s_ in scs if s_["tag"] == "sys")
         recs = core.pmap(run_one, scs, chunksize=8)
         for ix, r in enumerate(recs, 1):
